@@ -6,12 +6,17 @@ cd /verif
 [ -f seeded/RESULTS.json ] || echo '{}' > seeded/RESULTS.json
 for d in ${@:-$(ls -d seeded/*/ | xargs -n1 basename)}; do
   prop=$(echo "$d" | cut -c1-3)
+  # a seed may name the checks that are expected to see it (file `checks`, e.g. "C13 C01"): a change aimed
+  # at one property can break the clause of another one instead
+  props="$prop"; [ -f "/verif/seeded/$d/checks" ] && props=$(cat "/verif/seeded/$d/checks")
   [ -n "$(git -C /repo status --porcelain)" ] && { echo "REPO DIRTY, abort"; exit 2; }
   if git -C /repo apply --3way "/verif/seeded/$d/patch.diff" 2>/tmp/seed_apply.err; then
-    out=$(./check "$prop" --tier quick 2>&1); rc=$?
+    out=""; rc=0
+    for pp in $props; do o1=$(./check "$pp" --tier quick 2>&1); r1=$?; out="$out
+$o1"; [ $r1 -ne 0 ] && rc=$r1; done
     n=$(echo "$out" | grep -c "^VIOLATION")
     first=$(echo "$out" | grep -m1 'signature:' | sed 's/^ *signature: //')
-    echo "seed $d -> check $prop exit=$rc violations=$n $first"
+    echo "seed $d -> check $props exit=$rc violations=$n $first"
     python3 - "$d" "$rc" "$n" "$first" <<'PY'
 import json,sys
 p='/verif/seeded/RESULTS.json'
